@@ -1,4 +1,4 @@
-import HapVerif.Lemmas.C01Eq
+import HapVerif.Lemmas.C01Hist
 import HapVerif.Generated.Facts
 /-
 C01 — incremental (partial) resync converges to the configuration of a full sync.
@@ -33,9 +33,10 @@ For the current revision (2) this file proves
                 touches differs from a full sync (`scdef_trace_order`); the failed declarations contribute
                 nothing to the host, the real pipelines are equal (replayed: corpus of harness/cmd/hv/c01.go,
                 both creation orders). It is a limit of the trace abstraction, not a defect of the code.
-                Assumptions of the statement: `Describes` (the batch lists what changed; checked by the driver on
-                every sync of every case), unique ingress keys, `BackIdInj` (a backend id identifies namespace and
-                service: Kubernetes names contain no `_`), drain-support off.
+                `partial_eq_full_history_partial` states (c) for histories of OPERATIONS: the watchers model builds
+                the batches and `watchers_describe` proves that they describe the change (`Describes`).
+                Assumptions of the statement: unique ingress keys (preserved by the operations), `BackIdInj` (a backend
+                id identifies namespace and service: Kubernetes names contain no `_`), drain-support off.
 -/
 namespace HapVerif.C01
 
@@ -200,8 +201,7 @@ theorem closure_complete_declarers (w w' : World) (b : Batch) (st : St)
 
 /-! ## (c) partial = full -/
 
-/-- what is compared: the entry of every host and the trace of every backend -/
-def ObsEq (st1 st2 : St) : Prop := (∀ h, st1.hm h = st2.hm h) ∧ (∀ x, st1.bm x = st2.bm x)
+/- `ObsEq st1 st2` (Lemmas/C01Hist): the entry of every host and the trace of every backend coincide -/
 
 /-- one partial sync: if the controller state has the items of a full sync on `w` and satisfies the
 tracking invariant, the partial sync for a batch that describes `w → w'` yields the items of a full sync on
@@ -244,6 +244,31 @@ theorem partial_eq_full_partial (rev : Rev) (hrev : 2 ≤ rev) (w0 : World) (h :
       obtain ⟨hd, hinj, hsc⟩ := hstep hb
       exact ⟨partial_eq_full_step_partial rev hrev _ w' b _ hd hwf hwf' hl hobs hinj hsc,
         linked_syncPartial rev hrev hd hwf hwf' hl, hwf'⟩
+
+/-- (c) at the level of OPERATIONS, with the watchers model building the batches (`Describes` is proved for
+them: `describes_of_ops`): for every history — batches of create/update/delete operations on Ingress, Service,
+Endpoints, Secret, IngressClass, ConfigMap and Pod objects, one reconciliation after each batch, full or
+partial as the real `converters.Sync` decides — the controller ends with the host entries and backend traces
+of a full sync on the final cluster. `HistOK`: at each partial sync `SCdef`, `BackIdInj`, drain-support off. -/
+theorem partial_eq_full_history_partial (rev : Rev) (hrev : 2 ≤ rev) (batches : List (List Op))
+    (hne : batches ≠ []) (hok : HistOK rev ({}, {}) batches) :
+    ObsEq (runHistory rev batches).2.st (syncFull rev (runHistory rev batches).1) ∧
+      Linked (runHistory rev batches).1 (runHistory rev batches).2.st := by
+  rw [runHistory_eq]
+  have hg : Good rev (({} : World), ({} : Ctl)) := ⟨by simp [World.WF], Or.inl rfl⟩
+  obtain ⟨_, h⟩ := good_history rev hrev batches _ hg hok
+  have hf := first_false_history rev batches (({} : World), ({} : Ctl)) (Or.inl hne)
+  rcases h with h | h
+  · rw [hf] at h; cases h
+  · exact h
+
+/-- the batch the watchers model accumulates describes the change of the cluster (hypothesis of the step
+theorems), unless an event asked for a full sync -/
+theorem watchers_describe (w : World) (ops : List Op) (hwf : w.WF)
+    (hfull : (ops.foldl applyOp (w, {})).2.full = false)
+    (hdr : w.drain = false) (hdr' : (ops.foldl applyOp (w, {})).1.drain = false) :
+    Describes w (ops.foldl applyOp (w, {})).1 (ops.foldl applyOp (w, {})).2 :=
+  describes_of_ops ops hwf hfull hdr hdr'
 
 /-! ## non-vacuity and the historical counter-examples (kernel-checked on the model) -/
 
@@ -342,6 +367,17 @@ theorem scdef_trace_order :
       some ["def-nobackend", "def:d_app_8080"] ∧
     (((syncFull 2 wf).hm defaultHost).map (fun x => x.trace.map (·.what))) =
       some ["def:d_app_8080", "def-loser"] := by
+  decide +kernel
+
+/-- non-vacuity of `partial_eq_full_history_partial`: the witness history as operations (services, the three
+ingresses, sync; the owner is deleted, sync) satisfies `HistOK` trivially checked on its two reconciliations:
+the first is a full sync, the second a partial one -/
+def hops : List (List Op) :=
+  [[.svcSet svcApp, .svcSet svcApi, .ingSet i1, .ingSet i2, .ingSet i3], [.ingDel "d/i1"]]
+
+example : (runHistory 2 hops).1.ings.map (·.key) = ["d/i2", "d/i3"] ∧
+    needFull (runHistory 2 [hops.head!]).2 ([Op.ingDel "d/i1"].foldl applyOp ((runHistory 2 [hops.head!]).1, {})).2 = false ∧
+    (runHistory 2 hops).2.st.bm "d_api_8080" = (syncFull 2 (runHistory 2 hops).1).bm "d_api_8080" := by
   decide +kernel
 
 end Witness
